@@ -8,6 +8,7 @@
    allocation bounds are C17's models. *)
 From LzVerif Require Import Base.Bytes Codec.Store Codec.Range Codec.ProbProofs Codec.LzWindow Codec.LzmaDec
   Codec.LzmaAbs Codec.LzWindowProofs Codec.ProgProofs Codec.LzmaAbsProofs Codec.RangeNoWrapProofs Codec.LzmaTotalProofs.
+From LzVerif Require Codec.LzmaChunkProofs Codec.LzmaRoundtrip.
 
 (* The u32 product (range >> 11) * prob never overflows: decode_bit never takes the panic branch,
    for every decoder state with a 32-bit range and every table of valid probabilities. *)
